@@ -33,6 +33,8 @@ import (
 	skywaykeeper "github.com/palomachain/paloma/v2/x/skyway/keeper"
 	skywaytypes "github.com/palomachain/paloma/v2/x/skyway/types"
 	treasurytypes "github.com/palomachain/paloma/v2/x/treasury/types"
+	"github.com/palomachain/paloma/v2/x/valset"
+	vtypes "github.com/palomachain/paloma/v2/x/valset/types"
 
 	keeperutil "github.com/palomachain/paloma/v2/util/keeper"
 
@@ -104,6 +106,7 @@ func TestC09_BlocksNeverAbort(t *testing.T) {
 		hostileAccepted := 0
 		crossedHousekeeping := false
 		idSkips := 0
+		scheduledVersions := 0
 		var witnesses []*chain.Validator
 		left, longAdvance := false, false
 		skyNonce := uint64(0)
@@ -312,6 +315,21 @@ func TestC09_BlocksNeverAbort(t *testing.T) {
 				oks := block(t, "statusUpdate", c.MustSign(v.Actor, &palomatypes.MsgAddStatusUpdate{Metadata: chain.MD(v.Actor), Status: "s", Level: lvl}))
 				log = append(log, fmt.Sprintf("h%d:status(level %d)=%v", c.H-1, lvl, oks[0]))
 			},
+			// governance sets the minimum relayer version, at once or scheduled for a height a few blocks ahead; proposals
+			// overtake, repeat and contradict each other
+			"relayerVersionProposal": func(t *rapid.T) {
+				ver := rapid.SampledFrom([]string{"v1.11.3", "v1.12.0", "v1.13.0", "v2.0.0", "v0.9.0", "garbage", ""}).Draw(t, "minVersion")
+				target := uint64(0)
+				if rapid.Bool().Draw(t, "scheduled") {
+					target = uint64(c.H + int64(rapid.IntRange(-1, 9).Draw(t, "in")))
+				}
+				err := c09GovContent(c, &vtypes.SetPigeonRequirementsProposal{Title: "t", Description: "d", MinVersion: ver, TargetBlockHeight: target}, valset.NewValsetProposalHandler(c.App.ValsetKeeper))
+				log = append(log, fmt.Sprintf("h%d:gov(minRelayerVersion %q at %d)=%v", c.H, ver, target, err == nil))
+				if err == nil && target > uint64(c.H) {
+					scheduledVersions++
+				}
+				block(t, "relayerVersionProposal")
+			},
 			"govSettings": func(t *rapid.T) {
 				var err error
 				what := rapid.SampledFrom([]string{"relayWeights", "bridgeTax", "transferLimit", "minBalance"}).Draw(t, "what")
@@ -429,7 +447,7 @@ func TestC09_BlocksNeverAbort(t *testing.T) {
 			block(t, "final advance")
 		}
 		nt := hostileAccepted > 0 && crossedHousekeeping
-		evid.Case(t.Name(), fmt.Sprintf("start=%d %s", base, strings.Join(log, " ")), nt, []string{fmt.Sprintf("hostileAccepted=%d", min(hostileAccepted, 8)), fmt.Sprintf("start=%d", base), fmt.Sprintf("idSkips=%d", idSkips), fmt.Sprintf("prunedAfterWitnessLeft=%v", left && longAdvance && len(witnesses) > 0)}, func() any { return log })
+		evid.Case(t.Name(), fmt.Sprintf("start=%d %s", base, strings.Join(log, " ")), nt, []string{fmt.Sprintf("hostileAccepted=%d", min(hostileAccepted, 8)), fmt.Sprintf("start=%d", base), fmt.Sprintf("idSkips=%d", idSkips), fmt.Sprintf("scheduledRelayerVersions=%d", min(scheduledVersions, 3)), fmt.Sprintf("prunedAfterWitnessLeft=%v", left && longAdvance && len(witnesses) > 0)}, func() any { return log })
 	})
 }
 
